@@ -140,6 +140,13 @@ class SymCtx(BaseCtx):
         """explicit case split in the harness"""
         return bool(_sb(cond))
 
+    def hunt(self, name, cond, note=None):
+        """bug-hunting only: bounded search (small integers / half-integers) for a counterexample to `cond` on this path.
+        A counterexample that replays is a violation; finding none proves nothing and is reported as 'not refuted' --
+        such obligations are outside the claim (used where the solver cannot decide infeasibility of a degenerate path)."""
+        cond = _sb(cond)
+        self.runner.hunt_obligation(self, name, cond, note)
+
     def define(self, name, value):
         """opaque named variable equal to `value` (keeps a sub-term shared/unexpanded for the solver)"""
         from .alg import fresh
@@ -321,6 +328,9 @@ class ConcCtx(BaseCtx):
     def fork(self, cond):
         return _cb(cond)
 
+    def hunt(self, name, cond, note=None):
+        self.require(name, cond, note)
+
     def define(self, name, value):
         return value
 
@@ -420,6 +430,8 @@ class CaseResult:
         self.functions = set()
         self.cross = {"agree": 0, "disagree": 0, "skipped": 0}
         self.lemmas = set()
+        self.hunted = 0
+        self.not_refuted = 0
 
     def to_dict(self):
         d = dict(self.__dict__)
@@ -552,7 +564,13 @@ class Runner:
                     res.cross["skipped"] += 1
             if len(res.samples) < 6:
                 res.samples.append({"case": self.case_name, "obligation": name, "verdict": f"unsat (z3, tier {used})", "path": _dec_str(P)})
-        elif verdict == "sat":
+        if verdict not in ("unsat", "sat"):
+            # undecided by the ladder: bounded search for a small-integer counterexample (can only turn it into a violation)
+            nm0 = _nice_model(P.constraints(2) + [neg], P, timeout_ms=min(4000, self.budget.ob_timeouts[1]), scales=((1, 3), (1, 8), (2, 12)))
+            if nm0 is not None:
+                verdict = "sat"
+                model = nm0
+        if verdict == "sat":
             cons = P.constraints(2) + [neg]
             nm = _nice_model(cons, P)
             envs = []
@@ -572,9 +590,33 @@ class Runner:
                 res.violations.append(rec)
             else:
                 res.unconfirmed.append(rec)
-        else:
+        elif verdict != "unsat":
             res.inconclusive.append({"case": self.case_name, "obligation": name, "path": _dec_str(P), "why": "solver unknown/timeout"})
         self.cache[key] = verdict
+
+    def hunt_obligation(self, ctx, name, cond, note):
+        res = self.res
+        P = ctx.P
+        if cond.val is True:
+            return
+        neg = z3.Not(cond.e) if cond.val is None else z3.BoolVal(True)
+        key = ("hunt", name, neg.hash(), tuple(c.hash() for c in P.conds), tuple(c.hash() for c in P.order_conds))
+        if key in self.cache:
+            return
+        self.cache[key] = "hunt"
+        res.hunted = getattr(res, "hunted", 0) + 1
+        nm = _nice_model(P.constraints(2) + [neg], P, timeout_ms=1500, scales=((1, 3), (1, 8), (2, 12)))
+        if nm is None:
+            res.not_refuted = getattr(res, "not_refuted", 0) + 1
+            return
+        env = model_env(nm, P)
+        ok, info = self.replay(env, name)
+        rec = {"case": self.case_name, "obligation": name, "note": note, "path": _dec_str(P), "env": {k: str(v) for k, v in env.items()}}
+        if ok:
+            rec["replay"] = info
+            res.violations.append(rec)
+        else:
+            res.unconfirmed.append(rec)
 
     # ---- replay on the real code, plain numpy
     def replay(self, env, obligation=None):
